@@ -2,8 +2,9 @@
   C15 — circuits reported equal are equivalent; de-duplication keeps every distinct one.
 
   Property theorems only (lemmas in Proofs/Compare.lean).  Objects: circuits as operation lists on typed registers
-  (Model/Export.lean); `directL` = `compare(method="direct")` on operation lists (the driver checks on every input that
-  it agrees with the model's walk over the simulated DAG and with the implementation); `circuitIsIsomorphic`,
+  (Model/Export.lean); `directL` = `compare(method="direct")` on operation lists — proved equal to the model's walk over
+  the simulated DAG `direct` for well-formed circuits (§4, `direct_walk_is_its_operation_list_form`; the driver also checks
+  it on every input, and compares `direct` with the implementation); `circuitIsIsomorphic`,
   `isoNormalised` = the isomorphism comparison as coded (simulated DAG with ordered parallel edges, `control_target`
   attributes, `node_match`, `edge_match` on the multiset of roles of the parallel edges); `removeRedundantWith`, `storageAddAll` = the filters.
   Reference notions: `wiresEq` (same registers, same executed operations on every quantum register) and `renEq`
@@ -18,6 +19,10 @@
 import GraphiqModel.Proofs.Compare
 import GraphiqModel.Proofs.CompareRepairNorm
 import GraphiqModel.Proofs.CompareRepairStab
+import GraphiqModel.Proofs.CompareRepairRenEq
+import GraphiqModel.Proofs.CompareRepairDirect
+import GraphiqModel.Proofs.CompareRepairEquiv
+import GraphiqModel.Proofs.CompareRepairComplete
 namespace Graphiq.C15
 open Graphiq Graphiq.Export Graphiq.Compare
 
@@ -257,6 +262,35 @@ theorem repaired_matcher_rejects_the_witnesses :
     removeRedundant2 [witA, witB] = [witA, witB] := by
   decide +kernel
 
+/-- **the repaired isomorphism relation is reflexive and symmetric**: the identity map passes the check on every DAG with
+    distinct node names whose nodes all carry an operation, and the inverse of a map passing the check from `g1` to `g2`
+    passes it from `g2` to `g1` — so, `networkx.is_isomorphic` deciding existence, the comparison gives the same answer
+    for (a, b) and (b, a) -/
+theorem iso2_reflexive_and_symmetric :
+    (∀ g : MG, (g.nodes.map (·.1)).Nodup → (∀ n ∈ g.nodes.map (·.1), ∃ o, g.opOf n = some o) →
+      isoCheck2 g g (idMapOf g) = true) ∧
+    (∀ (g1 g2 : MG) (f : List (Nd × Nd)), isoCheck2 g1 g2 f = true → ∃ f', isoCheck2 g2 g1 f' = true) :=
+  ⟨isoCheck2_refl, fun g1 g2 f h => ⟨_, isoCheck2_symm g1 g2 f h⟩⟩
+
+/-- **a well-formed circuit is isomorphic to its copy**, as `compare` calls the repaired comparison and as the filters call
+    it: on the DAG `CircuitDAG.add` builds, and on its normalisation, the identity map passes the check -/
+theorem circuit_is_isomorphic_to_its_copy (c : Circuit) (h : WellFormed c) :
+    ∃ g, MG.build c = .ok g ∧ isoCheck2 g.addControlTarget2 g.addControlTarget2 (idMapOf g.addControlTarget2) = true ∧
+      isoCheck2 g.normalise.addControlTarget2 g.normalise.addControlTarget2 (idMapOf g.normalise.addControlTarget2) = true :=
+  build_iso_refl c (wellFormed_opOK c h)
+
+/-- **no false-distinct on renamed copies**: if the registers of a well-formed circuit are renamed by a type-preserving
+    bijection `π` of its registers (every operation renamed in place, same order), the repaired comparison has an
+    isomorphism to report — the node map "input/output nodes follow their register, operation nodes keep their id" passes
+    the full check (`networkx.is_isomorphic`, deciding existence, answers `True`).  Together with `iso_sound` this pins the
+    repaired function from both sides; the converse for arbitrary `RenamedBy` pairs (operations also reordered) is tested,
+    not proved. -/
+theorem renamed_copy_is_isomorphic (c : Circuit) (h : WellFormed c) (π : Wire → Wire)
+    (hπ : IsRenaming (wiresN c.ne c.np c.nc) π) (hsurj : ∀ w2 ∈ wiresN c.ne c.np c.nc, ∃ w ∈ wiresN c.ne c.np c.nc, π w = w2) :
+    ∃ g1 g2 f, MG.build c = .ok g1 ∧ MG.build ⟨c.ne, c.np, c.nc, c.ops.map (renOp π)⟩ = .ok g2 ∧
+      isoCheck2 g1.addControlTarget2 g2.addControlTarget2 f = true :=
+  renamed_copy_iso c (wellFormed_opOK c h) π hπ hsurj
+
 /-- a positive answer of the repaired model always exhibits a map that passes the full check (the search is never trusted) -/
 theorem iso2_answer_is_checked (g1 g2 : MG) (h : isoGraphs2 g1 g2 = true) :
     ∃ f, isoCheck2 g1.addControlTarget2 g2.addControlTarget2 f = true := isoGraphs2_witness g1 g2 h
@@ -310,6 +344,85 @@ theorem dedup_sound (l : List Circuit) (hl : ∀ c ∈ l, WellFormed c) :
     ∀ x ∈ l, x ∈ removeRedundant2 l ∨ ∃ k ∈ removeRedundant2 l, ∃ π, RenamedBy π (flatC k) (flatC x) :=
   removeRedundant2_sound l (fun c hc => wellFormed_opOK c (hl c hc))
 
+/-- **the model of `direct` is its operation-list form.**  `direct` is the walk over the two simulated DAGs (build,
+    `unwrap_nodes`, `remove_identity`, then every register of both graphs in lock-step) — the function the driver compares
+    with the implementation; §1 is about `directL`.  On well-formed circuits the walk never raises and returns exactly
+    `directL` (register-path invariant of the normalised DAG, its node count, and an induction along the two paths), so
+    the agreement the harness tests on every input is a theorem, and every statement of §1 is a statement about the walk -/
+theorem direct_walk_is_its_operation_list_form (c1 c2 : Circuit) (h1 : WellFormed c1) (h2 : WellFormed c2) :
+    direct c1 c2 = .ok (directL c1 c2) :=
+  direct_eq_directL c1 c2 (wellFormed_opOK c1 h1) (wellFormed_opOK c2 h2)
+
+/-- **soundness of `direct` for the model of the code itself**: reported equal ⇒ same register counts and the same
+    executed operations on every quantum register -/
+theorem direct_sound_on_the_dag (c1 c2 : Circuit) (h1 : WellFormed c1) (h2 : WellFormed c2) (h : direct c1 c2 = .ok true) :
+    wiresEq c1 c2 = true :=
+  direct_graph_sound c1 c2 (wellFormed_opOK c1 h1) (wellFormed_opOK c2 h2) h
+
+/-- the walk is reflexive and symmetric, and does not raise -/
+theorem direct_reflexive_symmetric_on_the_dag (c1 c2 : Circuit) (h1 : WellFormed c1) (h2 : WellFormed c2) :
+    direct c1 c1 = .ok true ∧ direct c1 c2 = direct c2 c1 := by
+  rw [direct_walk_is_its_operation_list_form c1 c1 h1 h1, direct_walk_is_its_operation_list_form c1 c2 h1 h2,
+    direct_walk_is_its_operation_list_form c2 c1 h2 h1, directL_refl, directL_symm]
+  exact ⟨rfl, rfl⟩
+
+/-- … and insensitive to wrapping and to identity gates (the statement of §1 for the walk itself) -/
+theorem direct_insensitive_on_the_dag (pre post : List Op) (gs : List G1) (q : QReg) (ne np nc : Nat) (c2 : Circuit)
+    (h2 : WellFormed c2)
+    (hw : WellFormed ⟨ne, np, nc, pre ++ [.wrap gs q] ++ post⟩) (hu : WellFormed ⟨ne, np, nc, pre ++ Op.unwrap (.wrap gs q) ++ post⟩)
+    (hi : WellFormed ⟨ne, np, nc, pre ++ [.one .I q] ++ post⟩) (hn : WellFormed ⟨ne, np, nc, pre ++ post⟩) :
+    direct ⟨ne, np, nc, pre ++ [.wrap gs q] ++ post⟩ c2 = direct ⟨ne, np, nc, pre ++ Op.unwrap (.wrap gs q) ++ post⟩ c2 ∧
+    direct ⟨ne, np, nc, pre ++ [.one .I q] ++ post⟩ c2 = direct ⟨ne, np, nc, pre ++ post⟩ c2 := by
+  rw [direct_walk_is_its_operation_list_form _ c2 hw h2, direct_walk_is_its_operation_list_form _ c2 hu h2,
+    direct_walk_is_its_operation_list_form _ c2 hi h2, direct_walk_is_its_operation_list_form _ c2 hn h2]
+  obtain ⟨a, b⟩ := direct_insensitive_to_wrapping_and_identities pre post gs q ne np nc c2
+  rw [a, b]
+  exact ⟨rfl, rfl⟩
+
+/-- … and therefore **`CircuitStorage` with its default check** (`check_redundant_circuit` = `direct` on copies; an
+    exception counts as "different", as in the driver) **never refuses a distinct circuit**, stated for the graph-walk
+    model: a circuit that is not stored is, wire by wire, the same circuit as one that is stored -/
+theorem storage_default_keeps_every_distinct_on_the_dag (l : List Circuit) (hl : ∀ c ∈ l, WellFormed c) :
+    let eq := fun a b : Circuit => match checkRedundant a b with | .ok r => r | .error _ => false
+    ∀ x ∈ l, x ∈ (storageAddAll eq false l).1 ∨ ∃ k ∈ (storageAddAll eq false l).1, wiresEq k x = true := by
+  intro eq x hx
+  rw [storage_eq_removeRedundant]
+  have hsub : (removeRedundantWith eq l).Sublist l := (removeRedundantWith_spec eq l).1
+  rcases (removeRedundantWith_spec eq l).2 x hx with h | ⟨k, hk, hkx⟩
+  · exact Or.inl h
+  · refine Or.inr ⟨k, hk, ?_⟩
+    have hkl := hsub.subset hk
+    have hd : direct k x = .ok true := by
+      show checkRedundant k x = .ok true
+      cases hr : checkRedundant k x with
+      | ok r =>
+        have : eq k x = r := by show (match checkRedundant k x with | .ok r => r | .error _ => false) = r; rw [hr]
+        rw [this] at hkx; rw [hkx]
+      | error e =>
+        have : eq k x = false := by show (match checkRedundant k x with | .ok r => r | .error _ => false) = false; rw [hr]
+        rw [this] at hkx; cases hkx
+    exact direct_sound_on_the_dag k x (hl k hkl) (hl x hx) hd
+
+/-- **the original full statements of §3, now theorems**: `iso_sound_statement` and `dedup_iso_statement` (refuted above
+    for the matcher before the repair) hold literally — with the executable reference notion `renEq` the harness
+    evaluates by brute force — for the repaired functions on well-formed circuits -/
+theorem original_statements_hold_for_the_repaired_functions :
+    (∀ c1 c2 : Circuit, WellFormed c1 → WellFormed c2 → circuitIsIsomorphic2 c1 c2 = .ok true → renEq c1 c2 = true) ∧
+    (∀ l : List Circuit, (∀ c ∈ l, WellFormed c) →
+      ∀ x ∈ l, x ∈ removeRedundant2 l ∨ ∃ k ∈ removeRedundant2 l, renEq k x = true) := by
+  constructor
+  · intro c1 c2 h1 h2 h
+    obtain ⟨π, hπ⟩ := iso_sound c1 c2 h1 h2 h
+    exact hπ.renEq (wellFormed_opOK c1 h1) (wellFormed_opOK c2 h2)
+  · intro l hl x hx
+    obtain ⟨hsub, hall⟩ := dedup_sound l hl
+    rcases hall x hx with h | ⟨k, hk, π, hπ⟩
+    · exact Or.inl h
+    · refine Or.inr ⟨k, hk, ?_⟩
+      have hkl := hsub.subset hk
+      rw [← renEq_flatC]
+      exact hπ.renEq (flat_opOK _ _ (wellFormed_opOK k (hl k hkl))) (flat_opOK _ _ (wellFormed_opOK x (hl x hx)))
+
 /-! ## Non-vacuity -/
 
 /-- H e0; CNOT e0→p0; W[H,P] p0; measure-and-reset e0→p0; identity -/
@@ -349,5 +462,18 @@ example : removeRedundant2 [demo, demo', witA, witB, d22A, d22A'] = [demo, witA,
 example : ∃ g body, MG.build demo = .ok g ∧ Rep0 g (wiresN 1 1 1) body ∧ Rep g.addControlTarget2 (wiresN 1 1 1) body := by
   obtain ⟨g, hb, ⟨body, r, _⟩⟩ := dag_is_a_family_of_register_paths demo (by decide +kernel)
   exact ⟨g, body, hb, r, r.addControlTarget2⟩
+
+/-- the hypotheses of `direct_insensitive_on_the_dag` are met by a real instance -/
+example :
+    WellFormed ⟨1, 1, 0, [.one .H ⟨.e, 0⟩] ++ [.wrap [.H, .S] ⟨.p, 0⟩] ++ [.ctrl .CNOT ⟨.e, 0⟩ ⟨.p, 0⟩]⟩ ∧
+    WellFormed ⟨1, 1, 0, [.one .H ⟨.e, 0⟩] ++ Op.unwrap (.wrap [.H, .S] ⟨.p, 0⟩) ++ [.ctrl .CNOT ⟨.e, 0⟩ ⟨.p, 0⟩]⟩ ∧
+    WellFormed ⟨1, 1, 0, [.one .H ⟨.e, 0⟩] ++ [.one .I ⟨.p, 0⟩] ++ [.ctrl .CNOT ⟨.e, 0⟩ ⟨.p, 0⟩]⟩ ∧
+    WellFormed ⟨1, 1, 0, [.one .H ⟨.e, 0⟩] ++ [.ctrl .CNOT ⟨.e, 0⟩ ⟨.p, 0⟩]⟩ := by decide +kernel
+
+/-- the hypotheses are met: exchanging the two emitters of the D22 circuit is a renaming (and the model's search finds the
+    isomorphism: `circuitIsIsomorphic2 d22A d22A' = .ok true` above) -/
+example : IsRenaming (wiresN 2 0 0) (fun w => if w = ⟨.e, 0⟩ then ⟨.e, 1⟩ else if w = ⟨.e, 1⟩ then ⟨.e, 0⟩ else w) ∧
+    (⟨2, 0, 0, d22A.ops.map (renOp (fun w => if w = ⟨.e, 0⟩ then ⟨.e, 1⟩ else if w = ⟨.e, 1⟩ then ⟨.e, 0⟩ else w))⟩ : Circuit) = d22A' := by
+  refine ⟨⟨?_, ?_, ?_⟩, by decide⟩ <;> decide
 
 end Graphiq.C15
